@@ -9,7 +9,7 @@ LOG=$OUT/confirm.log; : > "$LOG"
 git apply "$OUT/patch.diff" >>"$LOG" 2>&1 || { echo "$OUT: PATCH DOES NOT APPLY"; exit 1; }
 cargo test --workspace --no-fail-fast --offline -j 6 >>"$LOG" 2>&1; SUITE=$?
 if [ $SUITE -ne 0 ]; then cargo test --workspace --no-fail-fast --offline -j 6 >>"$LOG" 2>&1; SUITE=$?; fi
-cp "$OUT/demo.rs" "$WT/$CRATE/tests/seeded_demo.rs"
+mkdir -p "$WT/$CRATE/tests"; cp "$OUT/demo.rs" "$WT/$CRATE/tests/seeded_demo.rs"
 timeout 900 cargo test --offline -j 6 -p $CRATE --test seeded_demo >>"$LOG" 2>&1; WITH=$?
 git checkout -q -- .
 timeout 900 cargo test --offline -j 6 -p $CRATE --test seeded_demo >>"$LOG" 2>&1; WITHOUT=$?
